@@ -79,3 +79,15 @@ Fixpoint list_eqb {A} (eqb : A -> A -> bool) (a b : list A) : bool :=
 
 Lemma list_eqb_refl {A} (eqb : A -> A -> bool) (Hr : forall x, eqb x x = true) l : list_eqb eqb l l = true.
 Proof. induction l as [|x l IH]; cbn; [reflexivity|]. now rewrite Hr, IH. Qed.
+
+(* hex decoding used by generated case files: parsing one string literal is much faster than a list of
+   numerals *)
+Definition hexval (c : ascii) : N :=
+  let n := N_of_ascii c in
+  if (48 <=? n)%N && (n <=? 57)%N then (n - 48)%N else if (97 <=? n)%N && (n <=? 102)%N then (n - 87)%N else 0%N.
+Fixpoint hx (s : string) : list N :=
+  match s with
+  | String a (String b r) => (hexval a * 16 + hexval b)%N :: hx r
+  | _ => []
+  end.
+Definition hs (s : string) : string := bs (hx s).
